@@ -13,7 +13,7 @@ CONSTANTS
   EmitActs = {"Create", "CreateBad", "Delete", "DeleteAbsent", "AddLink", "RemoveLink", "SetOne", "SetAttr", "SetType", "SetDef", "AppendDim", "DeleteDims", "Flush", "Close", "Open"}
   EmitRes = "any"
   EmitWhen = "ro"
-INVARIANTS TypeOK NamesUniqueInv OrderInv NoDanglingInv EidsFresh
+INVARIANTS TypeOK NamesUniqueInv OrderInv NoDanglingInv EidsFresh SearchEqualsBruteForce BreadthFirst BackRefsEqualBruteForce
 PROPERTIES DeleteFrame RejectFrame ReadOnlyFrame ReadOnlyRejects ReopenIdentity CloseSaves DurableAfterFlush FlushSaves
 VIEW View
 ACTION_CONSTRAINT Emit
